@@ -157,3 +157,171 @@ Lemma expired_not_matched_state s k : tracked s k = false -> matches s k = false
 Proof.
   intros H. destruct (matches s k) eqn:E; [|reflexivity]. apply matches_tracked in E. congruence.
 Qed.
+
+(* ------------------------------------------------------------ more map facts *)
+Section AMapFacts2.
+  Context {K V : Type} (eqb : K -> K -> bool).
+  Hypothesis eqb_eq : forall a b, eqb a b = true <-> a = b.
+
+  Lemma in_adel (p : K * V) k m : In p (adel eqb k m) -> In p m.
+  Proof.
+    induction m as [|[k' v'] m IH]; cbn; [tauto|].
+    destruct (eqb k k'); cbn; [auto | intros [H|H]; auto].
+  Qed.
+
+  Lemma in_nodup_aget k v (m : list (K * V)) : NoDup (keys m) -> In (k, v) m -> aget eqb k m = Some v.
+  Proof.
+    induction m as [|[k' v'] m IH]; cbn; [tauto|].
+    intros H; inversion H; subst. intros [H1|H1].
+    - inversion H1; subst. rewrite (eqb_refl eqb eqb_eq). reflexivity.
+    - destruct (eqb k k') eqn:E; [|auto].
+      apply eqb_eq in E; subst k'. exfalso. apply H2. apply (in_map fst) in H1. exact H1.
+  Qed.
+
+  Lemma nodup_keys_filter (f : K * V -> bool) (m : list (K * V)) :
+    NoDup (keys m) -> NoDup (keys (filter f m)).
+  Proof.
+    induction m as [|[k v] m IH]; cbn; [auto|].
+    intros H; inversion H; subst. destruct (f (k, v)); cbn; [|auto].
+    constructor; [|auto]. intros H1. apply H2.
+    unfold keys in *. apply in_map_iff in H1 as [p [H1 H4]]. apply filter_In in H4 as [H4 _].
+    apply in_map_iff. exists p. auto.
+  Qed.
+End AMapFacts2.
+
+Lemma nodup_app {A} (l1 l2 : list A) :
+  NoDup l1 -> NoDup l2 -> (forall x, In x l1 -> ~ In x l2) -> NoDup (l1 ++ l2).
+Proof.
+  induction l1 as [|a l1 IH]; cbn; [auto|].
+  intros H1 H2 H3. inversion H1; subst. constructor.
+  - rewrite in_app_iff. intros [H|H]; [contradiction | apply (H3 a); auto].
+  - apply IH; auto.
+Qed.
+
+(* ------------------------------------------------------------ the two-level map *)
+Definition wf_d (d : dmap) : Prop :=
+  NoDup (keys d) /\ forall ph i, In (ph, i) d -> NoDup (keys i) /\ i <> [].
+
+Local Notation Neqb_eq := N.eqb_eq.
+
+Lemma get2_put2_same d ph id v : get2 (put2 d ph id v) ph id = Some v.
+Proof.
+  unfold get2, put2. rewrite (aget_aput_same N.eqb Neqb_eq).
+  apply (aget_aput_same ident_eqb ident_eqb_eq).
+Qed.
+
+Lemma get2_put2_other d ph id v ph' id' :
+  (ph', id') <> (ph, id) -> get2 (put2 d ph id v) ph' id' = get2 d ph' id'.
+Proof.
+  intros N. unfold get2, put2.
+  destruct (N.eq_dec ph' ph) as [->|Hp].
+  - rewrite (aget_aput_same N.eqb Neqb_eq).
+    rewrite (aget_aput_other ident_eqb ident_eqb_eq) by congruence.
+    unfold inner_of. destruct (aget N.eqb ph d); reflexivity.
+  - rewrite (aget_aput_other N.eqb Neqb_eq) by congruence. reflexivity.
+Qed.
+
+Lemma get2_del2_same d ph id : get2 (del2 d ph id) ph id = None.
+Proof.
+  unfold get2, del2; cbv beta iota zeta.
+  destruct (adel ident_eqb id (inner_of d ph)) as [|p i'] eqn:E; cbv beta iota zeta.
+  - rewrite (aget_adel_same N.eqb). reflexivity.
+  - rewrite (aget_aput_same N.eqb Neqb_eq). rewrite <- E. apply (aget_adel_same ident_eqb).
+Qed.
+
+Lemma get2_del2_other d ph id ph' id' :
+  (ph', id') <> (ph, id) -> get2 (del2 d ph id) ph' id' = get2 d ph' id'.
+Proof.
+  intros N. unfold get2, del2; cbv beta iota zeta.
+  destruct (N.eq_dec ph' ph) as [->|Hp].
+  - assert (Hid : id <> id') by congruence.
+    destruct (adel ident_eqb id (inner_of d ph)) as [|p i'] eqn:E; cbv beta iota zeta.
+    + rewrite (aget_adel_same N.eqb). unfold inner_of in E.
+      destruct (aget N.eqb ph d) as [i|]; [|reflexivity].
+      rewrite <- (aget_adel_other ident_eqb ident_eqb_eq id id' i Hid). rewrite E. reflexivity.
+    + rewrite (aget_aput_same N.eqb Neqb_eq). rewrite <- E.
+      rewrite (aget_adel_other ident_eqb ident_eqb_eq) by exact Hid.
+      unfold inner_of. destruct (aget N.eqb ph d) as [i|]; reflexivity.
+  - destruct (adel ident_eqb id (inner_of d ph)) as [|p i']; cbv beta iota zeta.
+    + rewrite (aget_adel_other N.eqb Neqb_eq) by congruence. reflexivity.
+    + rewrite (aget_aput_other N.eqb Neqb_eq) by congruence. reflexivity.
+Qed.
+
+Lemma wf_inner d ph i : wf_d d -> aget N.eqb ph d = Some i -> NoDup (keys i) /\ i <> [].
+Proof. intros [_ H] E. apply (H ph). apply (aget_in N.eqb Neqb_eq). exact E. Qed.
+
+Lemma wf_aput d ph i : wf_d d -> NoDup (keys i) -> i <> [] -> wf_d (aput N.eqb ph i d).
+Proof.
+  intros [H1 H2] H3 H4. split; [apply (nodup_aput N.eqb Neqb_eq); exact H1|].
+  intros ph' i' [H|H]; [inversion H; subst; auto|]. apply in_adel in H. apply (H2 ph'). exact H.
+Qed.
+
+Lemma wf_adel d ph : wf_d d -> wf_d (adel N.eqb ph d).
+Proof.
+  intros [H1 H2]. split; [apply (nodup_adel N.eqb Neqb_eq); exact H1|].
+  intros ph' i' H. apply in_adel in H. apply (H2 ph'). exact H.
+Qed.
+
+Lemma wf_put2 d ph id v : wf_d d -> wf_d (put2 d ph id v).
+Proof.
+  intros W. unfold put2. apply wf_aput; [exact W | | unfold aput; discriminate].
+  apply (nodup_aput ident_eqb ident_eqb_eq). unfold inner_of.
+  destruct (aget N.eqb ph d) as [i|] eqn:E; [apply (wf_inner d ph i W E) | constructor].
+Qed.
+
+Lemma wf_del2 d ph id : wf_d d -> wf_d (del2 d ph id).
+Proof.
+  intros W. unfold del2; cbv beta iota zeta.
+  destruct (adel ident_eqb id (inner_of d ph)) as [|p i'] eqn:E; cbv beta iota zeta.
+  - apply wf_adel; exact W.
+  - apply wf_aput; [exact W | | discriminate]. rewrite <- E.
+    apply (nodup_adel ident_eqb ident_eqb_eq). unfold inner_of.
+    destruct (aget N.eqb ph d) as [i|] eqn:E2; [apply (wf_inner d ph i W E2) | constructor].
+Qed.
+
+(* all (phantom, identifier) pairs of the table *)
+Definition flat (d : dmap) : list tkey :=
+  flat_map (fun pi => map (fun iv => (fst pi, fst iv)) (snd pi)) d.
+
+Lemma length_flat d : length (flat d) = fold_right (fun pi n => (length (snd pi) + n)%nat) 0%nat d.
+Proof.
+  unfold flat. induction d as [|[ph i] d IH]; [reflexivity|].
+  cbn [flat_map fold_right fst snd]. rewrite app_length, map_length. f_equal. exact IH.
+Qed.
+
+Lemma in_flat d ph id : wf_d d -> (In (ph, id) (flat d) <-> is_some (get2 d ph id) = true).
+Proof.
+  intros [W1 W2]. unfold flat, get2. rewrite in_flat_map. split.
+  - intros [[ph' i] [H1 H2]]. cbn in H2. apply in_map_iff in H2 as [[id' v] [H2 H3]].
+    cbn in H2. inversion H2; subst ph' id'.
+    assert (E : aget N.eqb ph d = Some i) by (apply (in_nodup_aget N.eqb Neqb_eq); assumption).
+    rewrite E.
+    apply (in_map fst) in H3. cbn [fst] in H3. apply (in_keys_aget ident_eqb ident_eqb_eq) in H3 as [v' E3].
+    rewrite E3. reflexivity.
+  - destruct (aget N.eqb ph d) as [i|] eqn:E; [|discriminate].
+    destruct (aget ident_eqb id i) as [v|] eqn:E2; [|discriminate]. intros _.
+    exists (ph, i). split; [apply (aget_in N.eqb Neqb_eq); exact E|].
+    cbn. apply in_map_iff. exists (id, v). split; [reflexivity|]. apply (aget_in ident_eqb ident_eqb_eq). exact E2.
+Qed.
+
+Lemma nodup_map_pair {A B} (a : A) (l : list B) : NoDup l -> NoDup (map (pair a) l).
+Proof.
+  induction l as [|b l IH]; cbn; intros H; [constructor|]. inversion H; subst.
+  constructor; [|auto]. intros H1. apply in_map_iff in H1 as [b' [[= ->] H1]]. contradiction.
+Qed.
+
+Lemma nodup_flat d : wf_d d -> NoDup (flat d).
+Proof.
+  induction d as [|[ph i] d IH]; intros [W1 W2]; cbn; [constructor|].
+  inversion W1; subst.
+  apply nodup_app.
+  - destruct (W2 ph i (or_introl eq_refl)) as [Hi _].
+    assert (map (fun iv : ident * bool => (ph, fst iv)) i = map (pair ph) (keys i)) as ->.
+    { unfold keys. rewrite map_map. reflexivity. }
+    apply nodup_map_pair. exact Hi.
+  - apply IH. split; [exact H2 | intros ph' i' H; apply (W2 ph'); right; exact H].
+  - intros [ph' id'] H H'. apply in_map_iff in H as [[id2 v] [H _]]. cbn in H. inversion H; subst ph' id'.
+    unfold flat in H'. apply in_flat_map in H' as [[ph2 i2] [H3 H4]]. cbn in H4.
+    apply in_map_iff in H4 as [[id3 v3] [H4 _]]. cbn in H4. inversion H4; subst ph2.
+    apply H1. apply (in_map fst) in H3. exact H3.
+Qed.
